@@ -885,3 +885,372 @@ def lock10(cfg):
     res.floor('functions on whose paths a node is obsoleted', 10)
     res.floor('obsoletion sites', 10)
     return res
+
+
+# ---------------------------------------------------------------------------------------------------------------- COPY-1
+def copy1(cfg):
+    from .. import absint
+    from ..engine import reachable_from
+    res = RuleResult('COPY-1', 'the grow / shrink initialisers walk the slot arrays of their source node completely: an index variable used to subscript an array of the source node is (re)started at 0 only, advances by ++ only, and where its loop runs to a constant bound that bound is the size of the subscripted array - so no child of the source node is skipped when a node changes its size class')
+    INODE = re.compile(r'^unodb::detail::basic_inode_(4|16|48|256)<')
+    for f in cfg.functions:
+        m = INODE.match(f.cls)
+        if not m or not f.blocks or f.short != 'init' or not f.params:
+            continue
+        params = {p['did']: p for p in f.params if re.search(r'\binode_(4|16|48|256)<', p.get('t', ''))}
+        incremented = set()
+        for b, i, e in f.elements():
+            if e.get('k') == 'unop' and e.get('op') == '++':
+                r = f.ref_of(e['sub'])
+                if r:
+                    incremented.add(r[0])
+        # uses: operator[] / subscript with a source-parameter array and a plain local as the index
+        uses = {}    # did -> [(block, elem index, array size or None, loc)]
+        for b, i, e in f.elements():
+            if is_assert_elem(e):
+                continue
+            arr = idx = None
+            if e.get('k') == 'call' and e.get('name') == 'operator[]' and len(e.get('args', [])) == 2:
+                arr, idx = e['args']
+            elif e.get('k') == 'index':
+                arr, idx = e.get('base'), e.get('idx')
+            if arr is None:
+                continue
+            a = f.strip_casts(arr)
+            root = a
+            d = 0
+            while isinstance(root, dict) and root.get('k') == 'member' and d < 6:
+                root = f.strip_casts(root['base'])
+                d += 1
+            if not (isinstance(root, dict) and root.get('k') == 'ref' and root.get('did') in params):
+                continue
+            x = f.strip_casts(idx)
+            if not (isinstance(x, dict) and x.get('k') == 'ref' and x.get('vk') == 'local' and x['did'] in incremented):
+                continue
+            msz = re.search(r'std::array<.*, (\d+)>\s*$', (a.get('t') or '')) if isinstance(a, dict) else None
+            uses.setdefault(x['did'], []).append((b, i, int(msz.group(1)) if msz else None, e.get('loc'), x.get('name')))
+        if not uses:
+            continue
+        res.count('initialisers that walk a source node')
+        res.functions.add(f.sig)
+        flavor_ = 'olc' if 'olc_db' in f.cls else 'db'
+        src = next((re.search(r'inode_(4|16|48|256)<', p.get('t', '')) for p in f.params if re.search(r'\binode_(4|16|48|256)<', p.get('t', ''))), None)
+        title = 'I%s::init from %s (%s)' % (m.group(1), 'I' + src.group(1) if src else 'a node', flavor_)
+        for did, us in uses.items():
+            name = us[0][4]
+            problems = []
+            use_blocks = {(b, i) for b, i, _, _, _ in us}
+            for b, i, e in f.elements():
+                if is_assert_elem(e):
+                    continue
+                k = e.get('k')
+                val = None
+                isdef = False
+                if k == 'decl':
+                    for v in e['vars']:
+                        if v['did'] == did and 'init' in v:
+                            val, isdef = v['init'], True
+                elif k == 'binop' and e.get('op') == '=':
+                    r = f.ref_of(e['l'])
+                    if r and r[0] == did:
+                        val, isdef = e['r'], True
+                elif k == 'binop' and e.get('op') in ('+=', '-=', '*=', '<<=', '>>='):
+                    r = f.ref_of(e['l'])
+                    if r and r[0] == did:
+                        problems.append((e.get('loc'), 'index `%s` is advanced by `%s`, not by ++' % (name, e.get('op'))))
+                elif k == 'unop' and e.get('op') == '--':
+                    r = f.ref_of(e['sub'])
+                    if r and r[0] == did:
+                        problems.append((e.get('loc'), 'index `%s` is decremented' % name))
+                if not isdef:
+                    continue
+                # does a source-subscript use follow this definition?
+                reach = reachable_from(f, b, True)
+                follows = any((ub in reach and (ub != b or ui > i)) or (ub == b and ui > i) for ub, ui in use_blocks)
+                if not follows:
+                    continue
+                try:
+                    v0 = absint.ev(f, val, {})
+                except Exception:
+                    v0 = None
+                if isinstance(v0, tuple):
+                    v0 = v0[0] if v0[0] == v0[1] else None
+                if v0 != 0:
+                    problems.append((e.get('loc'), 'index `%s` starts at %s instead of 0: slot(s) below it of the source node are never visited' % (name, v0 if v0 is not None else xsig(f, val)[:40])))
+            # constant loop bounds against the array size
+            sizes = {s for _, _, s, _, _ in us if s}
+            for b, blk in f.blocks.items():
+                if blk.get('cond') is None or blk.get('term') not in ('ForStmt', 'WhileStmt', 'DoStmt'):
+                    continue
+                c = f.strip_casts(blk['cond'])
+                if not (isinstance(c, dict) and c.get('k') == 'binop' and c.get('op') in ('<', '!=', '<=')):
+                    continue
+                r = f.ref_of(c['l'])
+                if not (r and r[0] == did):
+                    continue
+                # only loops whose body subscripts the source with this variable
+                body = reachable_from(f, b, True)
+                try:
+                    kb = absint.ev(f, c['r'], {})
+                except Exception:
+                    kb = None
+                if isinstance(kb, tuple):
+                    kb = kb[0] if kb[0] == kb[1] else None
+                if kb is None or len(sizes) != 1:
+                    continue
+                n = next(iter(sizes))
+                lim = kb + 1 if c['op'] == '<=' else kb
+                # the source-subscript uses inside this loop
+                inloop = [u for u in us if u[0] in _loop_body(f, b)]
+                if inloop and lim != n:
+                    problems.append((c.get('loc'), 'the loop over `%s` runs to %d, the subscripted array of the source node has %d slots' % (name, lim, n)))
+            ok = not problems
+            res.ob(ok, {'rule': 'COPY-1', 'function': title, 'index': name, 'site': fileline(f.loc), 'source_subscripts': len(us), 'verdict': 'discharged' if ok else 'VIOLATION'})
+            for loc, why in problems[:2]:
+                res.find(f, loc, '%s: %s - a child of the old node is dropped (its whole subtree becomes unreachable) when the node changes its size class' % (title, why), key='COPY-1:I%s:%s' % (m.group(1), 'from' + (src.group(1) if src else '')), config=cfg.name)
+    res.floor('initialisers that walk a source node', 10)
+    return res
+
+
+def _loop_body(f, head):
+    """blocks of the natural loop(s) headed at `head`: those that reach head without leaving through it"""
+    preds = f.preds()
+    from ..engine import reachable_from
+    down = reachable_from(f, head, True)
+    body = {head}
+    work = [p for p in preds.get(head, []) if p in down]
+    while work:
+        x = work.pop()
+        if x in body:
+            continue
+        body.add(x)
+        work.extend(p for p in preds.get(x, []) if p in down)
+    return body
+
+
+# ---------------------------------------------------------------------------------------------------------------- LOCK-11
+LOCK_TESTS = {'must_restart': True, 'check': False, 'try_read_unlock': False, 'try_push': False, 'try_push_leaf': False}
+
+
+def lock11(cfg):
+    from ..engine import reachable_from
+    res = RuleResult('LOCK-11', 'a failed lock step means "I know nothing": on the failing side of every test of the optimistic-lock API in the OLC code (must_restart() true after try_read_lock / a write-guard upgrade, check() / try_read_unlock() false) every return that can be reached is the RESTART result (empty optional, resp. false of the bool try_* functions) - never a definitive answer such as "key absent", which would be computed from data whose consistency has just been refuted')
+    nsites = 0
+    for f in cfg.functions:
+        if not f.blocks or 'olc' not in f.sig:
+            continue
+        ret = f.ret or ''
+        if ret.startswith('std::optional<'):
+            mode = 'opt'
+        elif ret == 'bool' and f.short.startswith('try_'):
+            mode = 'bool'
+        else:
+            continue
+
+        def is_restart(e):
+            if e.get('e') is None:
+                return False
+            x = f.strip_casts(e['e'])
+            if mode == 'bool':
+                if isinstance(x, dict) and x.get('k') == 'initlist' and not x.get('args'):
+                    return True      # `return {};` of a bool: value-initialised = false
+                lits = []
+                other = []
+                f.walk(x, lambda y: lits.append(y) if y.get('k') == 'bool' else (other.append(y) if y.get('k') in ('ref', 'call', 'member') else None))
+                return bool(lits) and not other and not lits[0].get('v')
+            # empty optional: `{}` or a default-constructed optional / nullopt of the FUNCTION's return type
+            names = []
+            f.walk(x, lambda y: names.append(y) if (y.get('k') in ('ref', 'member') or (y.get('k') == 'call' and (y.get('ck') != 'ctor' or y.get('args')))) else None)
+            return not names
+        used = False
+        for b, blk in f.blocks.items():
+            if blk.get('cond') is None:
+                continue
+            ss = f.succs(b)
+            if len(ss) != 2:
+                continue
+            o, neg = f.strip_test(blk['cond'])
+            e = f.resolve(o)
+            if not (isinstance(e, dict) and e.get('k') == 'call' and e.get('name') in LOCK_TESTS and not is_assert_elem(e)):
+                continue
+            cls = e.get('cls') or ''
+            if not (cls.startswith('unodb::optimistic_lock') or (e.get('name') in ('try_push', 'try_push_leaf') and 'olc_db' in cls)):
+                continue
+            failval = LOCK_TESTS[e['name']]
+            fail_succ = ss[0] if (failval != neg) else ss[1]
+            if fail_succ is None:
+                continue
+            nsites += 1
+            used = True
+            # returns reachable on the failing side without re-entering the test
+            seen = {fail_succ}
+            work = [fail_succ]
+            bad = None
+            nret = 0
+            while work:
+                x = work.pop()
+                stop = False
+                for el in f.blocks[x]['elems']:
+                    if el.get('k') == 'return':
+                        nret += 1
+                        if not is_restart(el):
+                            bad = bad or el
+                        stop = True
+                        break
+                if stop:
+                    continue
+                for y in f.succs(x):
+                    if y is not None and y != b and y not in seen:
+                        seen.add(y)
+                        work.append(y)
+            ok = bad is None
+            res.ob(ok, {'rule': 'LOCK-11', 'function': sh(f.name)[:90], 'site': fileline(e.get('loc')), 'test': e['name'], 'returns_on_failing_side': nret, 'verdict': 'restart only' if ok else 'VIOLATION'})
+            if not ok:
+                res.find(f, bad.get('loc'), '%s: after %s() %s at %s the function returns a definitive result instead of the restart result: the lock step has just shown that the data read so far may be inconsistent (the node may be obsolete or being rewritten), so e.g. "key absent" can be reported for a key that is present throughout' % (f.short, e['name'], 'failed' if not failval else 'reported a restart', fileline(e.get('loc'))),
+                         key='LOCK-11:%s:%s' % (f.short, e['name']), config=cfg.name)
+        if used:
+            res.functions.add(f.sig)
+    res.count('lock-step tests', nsites)
+    res.floor('lock-step tests', 150)
+    return res
+
+
+# ---------------------------------------------------------------------------------------------------------------- DESC-1
+DESCENT = {'unodb::db<': ('get_internal', 'insert_internal', 'remove_internal'), 'unodb::olc_db<': ('try_get', 'try_insert', 'try_remove')}
+CHILD_CALLS = ('find_child', 'add_or_choose_subtree', 'remove_or_choose_subtree')
+
+
+def desc1(cfg):
+    from ..engine import dominators
+    res = RuleResult('DESC-1', 'the descent of get / insert / remove / seek (db and olc_db) consumes the key consistently: a working copy of the operation\'s key is compared with each node\'s prefix (get_shared_length on the working copy, never on the unshifted key), shifted by exactly the prefix length, its first byte selects the child (find_child / add_or_choose_subtree / remove_or_choose_subtree), and it is shifted by one more byte - in this order in every loop iteration; where a tree depth is tracked it advances by the same amounts in the same places; the helpers receive the full key')
+    fns = []
+    for f in cfg.functions:
+        if not f.blocks:
+            continue
+        for pre, shorts in DESCENT.items():
+            if f.cls.startswith(pre) and '::iterator' not in f.cls and f.short in shorts:
+                fns.append(f)
+        if re.match(r'^unodb::db<.*>::iterator$', f.cls) and f.short == 'seek':
+            fns.append(f)
+        if re.match(r'^unodb::olc_db<.*>::iterator$', f.cls) and f.short == 'try_seek':
+            fns.append(f)
+    for f in fns:
+        res.count('descent functions')
+        res.functions.add(f.sig)
+        name = '%s %s' % (flavor(f) if '::iterator' not in f.cls else ('olc_db' if 'olc_db' in f.cls else 'db') + ' iterator', f.short)
+        kp = _key_param(f)
+        inits = _inits(f)
+        dom = dominators(f)
+        problems = []
+
+        def is_key(o, depth=0):
+            """the operation's own key: the parameter or a const local copy of it"""
+            r = f.ref_of(o)
+            if r and kp is not None and r[0] == kp['did']:
+                return True
+            if r and r[0] in inits and depth < 3:
+                x = f.strip_casts(inits[r[0]])
+                # a copy that is never shifted
+                if not any(e.get('k') == 'call' and e.get('name') == 'shift_right' and e.get('obj') is not None and (f.ref_of(e['obj']) or (None,))[0] == r[0] for b, i, e in f.elements()):
+                    return is_key(inits[r[0]], depth + 1)
+            return False
+        shifts = [(b, i, e) for b, i, e in f.elements() if e.get('k') == 'call' and e.get('name') == 'shift_right' and 'basic_art_key<' in (e.get('cls') or '') and e.get('obj') is not None and not is_assert_elem(e)]
+        rems = {(f.ref_of(e['obj']) or (None, None))[0] for b, i, e in shifts}
+        if kp is None or len(rems) != 1 or None in rems:
+            res.incompl('DESC-1: %s: working copy of the key not identified (%d shifted variables)' % (name, len(rems)))
+            continue
+        rem = next(iter(rems))
+        if rem not in inits or not is_key(inits[rem]):
+            problems.append((f.loc, 'the shifted working key is not initialised from the operation\'s key'))
+
+        def is_rem(o):
+            r = f.ref_of(o)
+            return bool(r and r[0] == rem)
+
+        def is_rem_u64(o):
+            x = f.strip_casts(o)
+            return is_rem(o) or (isinstance(x, dict) and x.get('k') == 'call' and x.get('name') == 'get_u64' and x.get('obj') is not None and is_rem(x['obj']))
+
+        def is_rem0(o):
+            x = f.strip_casts(o)
+            while isinstance(x, dict) and x.get('k') == 'call' and x.get('ck') == 'ctor' and len(x.get('args', [])) == 1:
+                x = f.strip_casts(x['args'][0])
+            if isinstance(x, dict) and x.get('k') == 'call' and x.get('name') == 'operator[]':
+                ob = x.get('obj') if x.get('obj') is not None else (x['args'][0] if x.get('args') else None)
+                ix = x['args'][-1] if x.get('args') else None
+                iv = f.strip_casts(ix) if ix is not None else None
+                return ob is not None and is_rem(ob) and isinstance(iv, dict) and iv.get('k') == 'int' and int(iv.get('v', 1)) == 0
+            return False
+
+        def plen_like(o):
+            """a value that is the current node's prefix length"""
+            x = f.strip_casts(o)
+            d = 0
+            while isinstance(x, dict) and x.get('k') == 'ref' and x.get('vk') == 'local' and x['did'] in inits and d < 3:
+                x = f.strip_casts(inits[x['did']])
+                d += 1
+            while isinstance(x, dict) and x.get('k') == 'call' and x.get('ck') == 'ctor' and len(x.get('args', [])) == 1:
+                x = f.strip_casts(x['args'][0])
+            return isinstance(x, dict) and x.get('k') == 'call' and x.get('name') == 'length' and 'key_prefix' in (x.get('cls') or '')
+        gsl = [(b, i, e) for b, i, e in f.elements() if e.get('k') == 'call' and e.get('name') == 'get_shared_length' and 'key_prefix' in (e.get('cls') or '') and not is_assert_elem(e)]
+        child = [(b, i, e) for b, i, e in f.elements() if e.get('k') == 'call' and e.get('name') in CHILD_CALLS and 'inode' in (e.get('cls') or '') and len(e.get('args', [])) >= 2 and not is_assert_elem(e)]
+        for b, i, e in gsl:
+            if not (e.get('args') and is_rem_u64(e['args'][0])):
+                problems.append((e.get('loc'), 'get_shared_length() is applied to %s, not to the shifted working key: below the root the node prefix is compared with the wrong key bytes' % xsig(f, e['args'][0])[:40]))
+        for b, i, e in child:
+            if not is_rem0(e['args'][1]):
+                problems.append((e.get('loc'), '%s() selects the child by %s, not by the first byte of the shifted working key' % (e['name'], xsig(f, e['args'][1])[:40])))
+            if e['name'] != 'find_child' and not any(is_key(a) for a in e['args'][2:]):
+                problems.append((e.get('loc'), '%s() does not receive the operation\'s full key' % e['name']))
+        sp = [(b, i, e) for b, i, e in shifts if e.get('args') and plen_like(e['args'][0])]
+        s1 = [(b, i, e) for b, i, e in shifts if e.get('args') and isinstance(f.strip_casts(e['args'][0]), dict) and f.strip_casts(e['args'][0]).get('k') == 'int' and int(f.strip_casts(e['args'][0]).get('v', 0)) == 1]
+        if len(shifts) != len(sp) + len(s1):
+            problems.append((shifts[0][2].get('loc'), 'the working key is shifted by something else than the node\'s prefix length or one byte'))
+        if len(gsl) != 1 or len(child) != 1 or len(sp) != 1 or len(s1) != 1:
+            if not problems:
+                res.incompl('DESC-1: %s: expected one prefix comparison, one prefix shift, one child selection and one byte shift per iteration, found %d / %d / %d / %d' % (name, len(gsl), len(sp), len(child), len(s1)))
+                continue
+        else:
+            def before(x, y):
+                return (x[0] == y[0] and x[1] < y[1]) or (x[0] != y[0] and x[0] in dom.get(y[0], ()))
+            order = [('the prefix comparison', gsl[0]), ('the shift by the prefix length', sp[0]), ('the child selection', child[0]), ('the shift by one byte', s1[0])]
+            for (n1, a), (n2, c) in zip(order, order[1:]):
+                if not before(a, c):
+                    problems.append((c[2].get('loc'), '%s does not come after %s on every path' % (n2, n1)))
+            # depth bookkeeping
+            deps = [(b, i, e) for b, i, e in f.elements() if not is_assert_elem(e) and ((e.get('k') == 'call' and e.get('ck') == 'op' and e.get('op') in ('+=', '++') and 'tree_depth<' in (e.get('callee') or '')) or (e.get('k') in ('binop', 'unop') and e.get('op') in ('+=', '++') and 'tree_depth' in str((f.strip_casts(e.get('l') if e.get('k') == 'binop' else e.get('sub')) or {}).get('t'))))]
+            # a depth that is only ever advanced (remove: never read) is dead bookkeeping - its updates do not matter
+            depth_read = False
+            if deps:
+                tgt0 = deps[0][2]
+                dref = f.ref_of((tgt0.get('args') or [None])[0] if tgt0.get('k') == 'call' else (tgt0.get('l') if tgt0.get('k') == 'binop' else tgt0.get('sub')))
+                upd = {id(d[2]) for d in deps}
+                if dref:
+                    for b, i, e in f.elements():
+                        if id(e) in upd or is_assert_elem(e) or e.get('k') not in ('call',):
+                            continue
+                        for a in e.get('args', []):
+                            hit = []
+                            f.walk(a, lambda y: hit.append(1) if (y.get('k') == 'ref' and y.get('did') == dref[0]) else None)
+                            if hit and id(e) not in upd:
+                                depth_read = True
+            if deps and depth_read:
+                dp = [d for d in deps if d[2].get('op') == '+=']
+                d1 = [d for d in deps if d[2].get('op') == '++']
+                if len(dp) != 1 or len(d1) != 1:
+                    problems.append((deps[0][2].get('loc'), 'the tree depth is advanced %d time(s) by a length and %d time(s) by one per iteration, expected once each' % (len(dp), len(d1))))
+                else:
+                    a = dp[0][2]
+                    amount = (a.get('args') or [None, None])[1] if a.get('k') == 'call' else a.get('r')
+                    if amount is None or not plen_like(amount):
+                        problems.append((a.get('loc'), 'the tree depth is advanced by something else than the prefix length'))
+                    if dp[0][0] != sp[0][0]:
+                        problems.append((a.get('loc'), 'the tree depth is not advanced by the prefix length where the key is shifted by it'))
+                    if d1[0][0] != s1[0][0]:
+                        problems.append((d1[0][2].get('loc'), 'the tree depth is not advanced by one where the key is shifted by one byte'))
+        ok = not problems
+        res.ob(ok, {'rule': 'DESC-1', 'function': name, 'site': fileline(f.loc), 'verdict': 'discharged' if ok else 'VIOLATION'})
+        for loc, why in problems[:2]:
+            res.find(f, loc, '%s: %s - keys below a node with a prefix (or at depth > 0) are looked up, filed or split under the wrong bytes' % (name, why), key='DESC-1:%s' % f.short, config=cfg.name)
+    res.floor('descent functions', 16)
+    return res
